@@ -81,7 +81,7 @@ def _sub_key(n):
     return None
 
 
-def straightline(src, fn, targets, params, tables, consts, abstract=()):
+def straightline(src, fn, targets, params, tables, consts, abstract=(), options=None, callees=None):
     """Symbolic execution of the straight-line arithmetic at the top level of `fn` up to the assignment of the last
     target: every value is a real-number term (string) over the parameters.  Accepted statements: `v = <expr>`,
     `v op= <expr>`, the identity copies `v = np.array(v|v_in, ...)`, in-place `np.deg2rad(v, v)`; <expr> is built from
@@ -126,9 +126,56 @@ def straightline(src, fn, targets, params, tables, consts, abstract=()):
             return "(Rmod %s %s)" % (ex(n.left), ex(n.right))
         raise TranslateError("%s: expression at line %d is outside the translatable fragment" % (fn.name, getattr(n, "lineno", 0)))
 
+    # options: values of keyword arguments (`stomp`, `units`) for which the routine is specialised: an `if` whose test
+    # is such a name, or `name == "literal"`, is replaced by the branch taken; callees: functions whose results are
+    # bound to fresh parameters (`theta, phi = _xyz2thetaphi(x, y, z)`) or whose call is what is returned
+    options = options or {}
+    callees = callees or {}
+
+    def static_test(t):
+        if isinstance(t, ast.Name) and t.id in options:
+            return bool(options[t.id])
+        if isinstance(t, ast.Compare) and len(t.ops) == 1 and isinstance(t.ops[0], ast.Eq) and isinstance(t.left, ast.Name) \
+                and t.left.id in options and isinstance(t.comparators[0], ast.Constant):
+            return options[t.left.id] == t.comparators[0].value
+        return None
+
+    def flatten(stmts):
+        out = []
+        for st in stmts:
+            if isinstance(st, ast.If) and static_test(st.test) is not None:
+                out.extend(flatten(st.body if static_test(st.test) else st.orelse))
+            else:
+                out.append(st)
+        return out
+    body = flatten(fn.body)
     done = set()
-    for st in fn.body:
+    for k_st, st in enumerate(body):
         if isinstance(st, ast.Expr) and isinstance(st.value, ast.Constant):
+            continue
+        # a, b = callee(...): results of a separately tied routine become parameters
+        if isinstance(st, ast.Assign) and len(st.targets) == 1 and isinstance(st.targets[0], ast.Tuple) \
+                and isinstance(st.value, ast.Call) and isinstance(st.value.func, ast.Name) and st.value.func.id in callees \
+                and all(isinstance(e, ast.Name) for e in st.targets[0].elts):
+            names = callees[st.value.func.id]
+            _need(len(names) == len(st.targets[0].elts), "%s: results of %s" % (fn.name, st.value.func.id))
+            for e, nm in zip(st.targets[0].elts, names):
+                env[e.id] = nm
+            continue
+        # (w,) = np.where(v < c) ; if w.size > 0: v[w] += e      ==>   v := if v < c then v + e else v
+        if isinstance(st, ast.Assign) and len(st.targets) == 1 and isinstance(st.targets[0], ast.Tuple) and k_st + 1 < len(body) \
+                and isinstance(st.value, ast.Call) and len(st.value.args) == 1 and isinstance(st.value.args[0], ast.Compare) \
+                and (_is_name(st.value.func, "where") or _is_attr(st.value.func, "np", "where")):
+            cmpn, nxt = st.value.args[0], body[k_st + 1]
+            if isinstance(cmpn.left, ast.Name) and cmpn.left.id in env and len(cmpn.ops) == 1 and isinstance(cmpn.ops[0], ast.Lt) \
+                    and isinstance(nxt, ast.If) and not nxt.orelse and len(nxt.body) == 1 and isinstance(nxt.body[0], ast.AugAssign) \
+                    and isinstance(nxt.body[0].op, ast.Add) and isinstance(nxt.body[0].target, ast.Subscript) \
+                    and _is_name(nxt.body[0].target.value, cmpn.left.id):
+                v = cmpn.left.id
+                env[v] = "(if Rlt_dec %s %s then %s + %s else %s)" % (env[v], ex(cmpn.comparators[0]), env[v], ex(nxt.body[0].value), env[v])
+                body[k_st + 1] = ast.Pass()
+                continue
+        if isinstance(st, ast.Pass):
             continue
         if isinstance(st, ast.Assign) and len(st.targets) == 1 and isinstance(st.targets[0], ast.Name):
             t, v = st.targets[0].id, st.value
@@ -193,6 +240,9 @@ def straightline(src, fn, targets, params, tables, consts, abstract=()):
                 and isinstance(b.value, ast.Subscript) and _is_name(b.value.value, b.targets[0].id)
                 and isinstance(b.value.slice, ast.Constant) and b.value.slice.value == 0 for b in st.body):
             continue
+        if isinstance(st, ast.Return) and targets is None and isinstance(st.value, ast.Call) and isinstance(st.value.func, ast.Name) \
+                and st.value.func.id in callees and all(isinstance(a, ast.Name) and a.id in env for a in st.value.args):
+            return tuple(env[a.id] for a in st.value.args)        # the arguments handed to the (separately tied) callee
         if isinstance(st, ast.Return) and targets is None:
             v = st.value
             _need(isinstance(v, ast.Tuple) and all(isinstance(e, ast.Name) for e in v.elts), "%s returns a tuple of names" % fn.name)
@@ -552,6 +602,31 @@ def extract(path):
                                             abstract=("x", "y", "z")) if c["lat_atan2"]["sdss2eq"] else None
     for k, v in c["outstage"].items():
         _need(v is None or len(v) == 2, "%s returns (longitude, latitude)" % k)
+    # eq2xyz / xyz2eq specialised to the four (units, stomp) settings: the arguments eq2xyz hands to _thetaphi2xyz, and
+    # what xyz2eq does with the (theta, phi) it gets from _xyz2thetaphi
+    c["eq2xyz_args"], c["xyz2eq_post"] = {}, {}
+    for units in ("deg", "rad"):
+        for stomp in (True, False):
+            o = {"units": units, "stomp": stomp}
+            c["eq2xyz_args"][(units, stomp)] = straightline(
+                s, s.funcs["eq2xyz"], None, {"ra": "ra", "dec": "dec"}, {}, {"D2R": "D2R", "_sdsspar:node": "sdss_node"},
+                options=o, callees={"_thetaphi2xyz": ()})
+            c["xyz2eq_post"][(units, stomp)] = straightline(
+                s, s.funcs["xyz2eq"], None, {}, {}, {"R2D": "R2D", "PI": "PI", "_sdsspar:node": "sdss_node"},
+                options=o, callees={"_xyz2thetaphi": ("theta0", "phi0")})
+            for k in ("eq2xyz_args", "xyz2eq_post"):
+                v = c[k][(units, stomp)]
+                _need(v is not None and len(v) == 2, "%s for units=%s stomp=%s" % (k, units, stomp))
+    # the exception class of the range checks
+    for fnm in ("eq2sdss", "sdss2eq"):
+        for st in s.funcs[fnm].body:
+            if isinstance(st, ast.If) and any(isinstance(b, ast.Raise) for b in st.body):
+                r = [b for b in st.body if isinstance(b, ast.Raise)][0]
+                _need(isinstance(r.exc, ast.Call) and isinstance(r.exc.func, ast.Name), "%s raises a named exception class" % fnm)
+                c.setdefault("range_err", set()).add(r.exc.func.id)
+    _need(len(c.get("range_err", ())) == 1, "one exception class for all range checks")
+    c["range_err"] = {"ValueError": "EValue", "IndexError": "EIndex", "RuntimeError": "ERuntime", "TypeError": "EType",
+                      "KeyError": "EKey"}.get(list(c["range_err"])[0], "EOther")
     # shiftra just forwards
     rets = [n for n in ast.walk(s.funcs["shiftra"]) if isinstance(n, ast.Return)]
     _need(len(rets) == 1 and isinstance(rets[0].value, ast.Call) and _is_name(rets[0].value.func, "shiftlon"), "shiftra calls shiftlon")
@@ -580,6 +655,7 @@ def emit(c):
     w("(* GENERATED by harness/translate/c09_consts.py from esutil/coords.py -- do not edit.")
     w("   Constants of the coordinate conversions as exact rationals (every decimal literal keeps its digits). *)")
     w("From Coq Require Import Reals QArith List.")
+    w("From EsVerif.Common Require Import Base.")
     w("Import ListNotations.")
     w("Open Scope R_scope.")
     w("")
@@ -657,6 +733,18 @@ def emit(c):
             w("Definition %s_out_src %s : option (R * R) := None.  (* as-found shape (arcsin) *)" % (k, osig[k]))
         else:
             w("Definition %s_out_src %s : option (R * R) :=\n  Some (%s,\n        %s)." % (k, osig[k], f[0], f[1]))
+    w("")
+    w("(* eq2xyz: the (theta, phi) handed to _thetaphi2xyz; xyz2eq: what is returned for the (theta0, phi0) of _xyz2thetaphi;")
+    w("   one branch per (units == \"deg\", stomp) setting, each translated from the source specialised to that setting *)")
+    def four(tab):
+        g = lambda u, st: "(%s, %s)" % tab[(u, st)]
+        return ("  if deg then (if stomp then %s else %s)\n  else (if stomp then %s else %s)."
+                % (g("deg", True), g("deg", False), g("rad", True), g("rad", False)))
+    w("Definition eq2xyz_args_src (deg stomp : bool) (ra dec : R) : R * R :=\n" + four(c["eq2xyz_args"]))
+    w("Definition xyz2eq_post_src (atb : R -> R -> R -> R) (deg stomp : bool) (theta0 phi0 : R) : R * R :=\n" + four(c["xyz2eq_post"]))
+    w("")
+    w("(* error class raised by the range checks of eq2sdss / sdss2eq *)")
+    w("Definition sdss_range_err : err := %s." % c["range_err"])
     w("")
     w("(* shiftlon (exact rationals, Q) *)")
     w("Definition shift_mod : Q := %s." % _q(c["shift_mod"]))
